@@ -54,7 +54,11 @@ def _mk_get_density(kind, R):
         u, uv = gen_factor(w, kind, "u", R, "D")
         x = w.arr("x", "N", "D")
         lnmass = SP.lnmass(w, uv["S"], uv["nu"], uv["lb"], -uv["ld"], w.size("D"))
+        from .common import fresh_result, params_unchanged, snapshot as _snap
+        su_ = _snap(u)
         d = u.get_density()                                                  # REAL
+        fresh_result(w, "frame/result-is-a-new-object", d, u)
+        params_unchanged(w, "frame/operand-unchanged", u, su_)
         wf_measure(w, "density", d, is_pdf=True)
         w.equal("value", d.evaluate_ln(x), view_lnf(w, uv, x, R) - lnmass[:, None])
         w.equal("density-mass=1", d.log_integral(), 0.0 * lnmass)
